@@ -102,7 +102,12 @@ def main(pid, tier, seed, replay=None):
     coverage = {}
     assumptions = list(getattr(mod, 'ASSUMPTIONS', []))
 
-    # 1. proof obligations (Generated.v is re-extracted from the source first)
+    # 1. proof obligations (Generated.v is re-extracted from the source first).  Steps 1 and 2 write shared files
+    # (Generated.v, .vo files, the two binaries): concurrent checks take turns here, explorations run side by side.
+    import fcntl
+    os.makedirs(aglib.BUILD, exist_ok=True)
+    lockf = open(os.path.join(aglib.BUILD, '.agv.lock'), 'w')
+    fcntl.flock(lockf, fcntl.LOCK_EX)
     stale = aglib.regen_facts()
     coverage['facts_stale'] = stale
     deep_only = bool(os.environ.get('AGV_DEEP_ONLY'))      # exploration depth of the thorough tier without the clean rebuild + coqchk
@@ -135,6 +140,8 @@ def main(pid, tier, seed, replay=None):
     if tier == 'thorough' and getattr(mod, 'NEEDS_RELEASE', False):
         aglib.build_impl(release=True)
     aglib.build_model()
+    fcntl.flock(lockf, fcntl.LOCK_UN)
+    lockf.close()
 
     # 3..5 property specific exploration
     from props.common import replay_known
